@@ -314,6 +314,16 @@ pub fn gen_median(rng: &mut Rng, tier: &Tier, acc_every: bool) -> Vec<Case> {
                 .collect();
             cases.push(median_case(n, " T=f64", &vals, acc_every));
         }
+        // NaN patterns: NaN first, NaN bursts of various lengths during warm-up and in a full window,
+        // each followed by enough ordinary samples for the NaNs to leave the window again
+        for burst in 1..=n.min(6) {
+            for lead in [0usize, 1, 2, n, n + 1] {
+                let mut vals: Vec<String> = int_seq(rng, lead).iter().map(|x| x.to_string()).collect();
+                vals.extend((0..burst).map(|_| "nan".to_string()));
+                vals.extend(int_seq(rng, n + 3).iter().map(|x| x.to_string()));
+                cases.push(median_case(n, " T=f64", &vals, acc_every));
+            }
+        }
     }
     cases
 }
